@@ -149,6 +149,10 @@ def execute(dev):
         # default location = the default master: the un-instanced font's own (default) values
         vf = TTFont(io.BytesIO(data))
         di = pos.index(default)
+        ax = [x for x in vf["fvar"].axes if x.axisTag == "wght"]
+        if len(ax) != 1 or (ax[0].minValue, ax[0].defaultValue, ax[0].maxValue) != (min(pos), default, max(pos)):
+            vs.append(bad("C18.default-is-default-master", f"fvar wght (min, default, max) = {[(x.minValue, x.defaultValue, x.maxValue) for x in ax]}, "
+                          f"configured default {default}, master positions {pos}"))
         dcfg, dfont, _ = inproc.build_direct([(g.cps, g.svg()) for g in masters[di]], static_over)
         for g in masters[di]:
             nv, nd = shaper.shape(vf, g.cps)[0], shaper.shape(dfont, g.cps)[0]
@@ -156,6 +160,10 @@ def execute(dev):
                 vs.append(bad("C18.default-is-default-master", f"{[hex(c) for c in g.cps]}: default advance {vf['hmtx'][nv][0]} vs {dfont['hmtx'][nd][0]}"))
             if vf["glyf"][nv].numberOfContours != dfont["glyf"][nd].numberOfContours:
                 vs.append(bad("C18.default-is-default-master", f"{[hex(c) for c in g.cps]}: base glyph differs from the default master's"))
+            else:
+                cv, cd = vf["glyf"][nv].getCoordinates(vf["glyf"])[0], dfont["glyf"][nd].getCoordinates(dfont["glyf"])[0]
+                if len(cv) != len(cd) or any(abs(p1[0] - p2[0]) > 1 or abs(p1[1] - p2[1]) > 1 for p1, p2 in zip(cv, cd)):
+                    vs.append(bad("C18.default-is-default-master", f"{[hex(c) for c in g.cps]}: the font's default outline of {nv} is not the default master's"))
         # the clip box in force contains the interpolated geometry at every location
         lo, hi = pos[0], pos[-1]
         for t in (0.25, 0.5, 0.75):
